@@ -624,7 +624,9 @@ h1_chunked (request_st * const r, chunkqueue * const cq, chunkqueue * const dst_
                 }
                 else if (__builtin_expect( (p-2 != (char *)s), 0)) {
                     while (*s == ' ' || *s == '\t') ++s;
-                    if (*s != '\r' && *s != ';')
+                    /* chunk-ext or line end; no bare CR within the line */
+                    if ((*s != ';' && (char *)s != p-2)
+                        || NULL != memchr(s, '\r', (size_t)(p-2 - (char *)s)))
                         p = NULL;
                 }
                 if (NULL == p) {
